@@ -1,4 +1,4 @@
-import JunoModel.C09.ProofsPage
+import JunoModel.C09.ProofsPre
 /-! C09 — helper lemmas, part 6: a page never contains anything but matching events of the range,
 in chain order — for every state of the index, every cache content, every (also forged) token. -/
 namespace Juno.C09
@@ -203,5 +203,158 @@ theorem events_sound (cfg : Cfg) (n : Node) (f : Filter) (fromB toB : Nat) (tok 
         split
         · exact canonical_sound cfg n f chunk limit _ latest _ hW
         · exact ⟨[], by simp, by simp⟩
+
+/-! ### Pages that continue into the pre-confirmed blocks -/
+
+theorem scanPre_sound (f : Filter) (full : List Block) (chunk fromP toB : Nat) (rest : List Block) :
+    ∀ (num : Nat) (acc : List Emitted) (skip : Nat), (∀ i, rest[i]? = full[num + i]?) →
+      ∃ Y, (scanPre f chunk fromP toB num rest acc skip).1 = acc ++ Y ∧
+        Y.Sublist ((List.range' num rest.length).flatMap (blkSel f full)) := by
+  induction rest with
+  | nil => intro num acc skip _; exact ⟨[], by simp [scanPre], by simp⟩
+  | cons blk rest ih =>
+    intro num acc skip hidx
+    have hget : full[num]? = some blk := by have := hidx 0; simpa using this.symm
+    have hidx' : ∀ i, rest[i]? = full[num + 1 + i]? := by
+      intro i
+      have := hidx (i + 1)
+      simp only [List.getElem?_cons_succ] at this
+      rw [this]; congr 1; omega
+    have hbS : blkSel f full num = sel f (blockRaw num blk) := by simp [blkSel, hget]
+    simp only [List.length_cons, List.range'_succ, List.flatMap_cons]
+    have skipBlock : ∀ (a : List Emitted) (k : Nat),
+        ∃ Y, (scanPre f chunk fromP toB (num + 1) rest a k).1 = a ++ Y ∧
+          Y.Sublist (blkSel f full num ++ (List.range' (num + 1) rest.length).flatMap (blkSel f full)) := by
+      intro a k
+      obtain ⟨Y, h1, h2⟩ := ih (num + 1) a k hidx'
+      exact ⟨Y, h1, List.Sublist.trans h2 (List.sublist_append_right _ _)⟩
+    unfold scanPre
+    split
+    · exact skipBlock acc skip
+    · split
+      · exact ⟨[], by simp, by simp⟩
+      · split
+        · exact skipBlock acc 0
+        · obtain ⟨X, hX, hXs⟩ := scanGo_sublist f skip chunk (blockRaw num blk) acc
+          cases hr : scanGo f skip chunk (blockRaw num blk) 0 acc with
+          | mk acc' r2 =>
+            cases r2 with
+            | mk p full' =>
+              rw [hr] at hX
+              simp only at hX
+              cases full' with
+              | true =>
+                refine ⟨X, hX, ?_⟩
+                rw [hbS]; exact List.Sublist.trans hXs (List.sublist_append_left _ _)
+              | false =>
+                simp only
+                obtain ⟨Y, h1, h2⟩ := ih (num + 1) acc' 0 hidx'
+                refine ⟨X ++ Y, by rw [h1, hX]; simp, ?_⟩
+                rw [hbS]; exact List.Sublist.append hXs h2
+
+/-- Soundness of a page of `eventsPre` in the case that reaches the pre-confirmed blocks, for any
+index state and any token: what is returned is a sub-list of the naive scan of the canonical
+blocks up to `base` followed by the pre-confirmed blocks. -/
+theorem eventsPre_sound (cfg : Cfg) (n : Node) (f : Filter) (fromB toB : Nat) (tok : Option Token) (chunk limit base : Nat)
+    (pre : List Block) (hW : 1 ≤ cfg.W) (hpre : pre ≠ []) (hbase : base < n.chain.length)
+    (hB0 : (toB != sentinel && decide (toB ≤ n.chain.length - 1)) = false) (hto : ¬ toB ≤ base) :
+    ResSound f (n.chain.take (base + 1) ++ pre) [] (min (startOf fromB tok) (base + 1)) (base + pre.length)
+      (eventsPre cfg n f fromB toB tok chunk limit base pre).1 := by
+  have htl : (n.chain.take (base + 1)).length = base + 1 := by rw [List.length_take]; omega
+  have hcongr : ∀ b, b ≤ base → n.chain[b]? = (n.chain.take (base + 1) ++ pre)[b]? := by
+    intro b hb
+    rw [List.getElem?_append_left (by rw [htl]; omega), List.getElem?_take]
+    simp [show b < base + 1 by omega]
+  have hpidx : ∀ i, pre[i]? = (n.chain.take (base + 1) ++ pre)[base + 1 + i]? := by
+    intro i
+    rw [List.getElem?_append_right (by rw [htl]; omega), htl]
+    congr 1; omega
+  have hplen : 1 ≤ pre.length := by
+    cases pre with
+    | nil => exact absurd rfl hpre
+    | cons _ _ => simp
+  -- the canonical part, read on the extended chain
+  have hcan : ∀ start skip, ResSound f (n.chain.take (base + 1) ++ pre) [] start base
+      (canonical cfg n f chunk limit start base skip).1 := by
+    intro start skip
+    have := canonical_sound cfg n f chunk limit start base skip hW
+    revert this
+    cases (canonical cfg n f chunk limit start base skip).1 with
+    | err e => intro _; trivial
+    | ok acc t =>
+      rintro ⟨Y, hY, hYs⟩
+      refine ⟨Y, hY, ?_⟩
+      have : naive f n.chain start base = naive f (n.chain.take (base + 1) ++ pre) start base := by
+        simp only [naive_eq]
+        apply flatMap_congr'
+        intro b hb
+        rw [List.mem_range'_1] at hb
+        exact blkSel_congr f _ _ b (hcongr b (by omega))
+      rw [← this]; exact hYs
+  have hpreNaive : ((List.range' (base + 1) pre.length).flatMap (blkSel f (n.chain.take (base + 1) ++ pre))) =
+      naive f (n.chain.take (base + 1) ++ pre) (base + 1) (base + pre.length) := by
+    rw [naive_eq]; congr 2; omega
+  rw [eventsPre_eq]
+  have hemp : pre.isEmpty = false := by cases pre <;> simp_all
+  simp only [hemp, Bool.false_eq_true, if_false]
+  split
+  · trivial
+  · rename_i height heq
+    have e : n.chain.length - 1 = height := by omega
+    rw [e] at hB0
+    simp only [hB0, Bool.false_eq_true, if_false, hto]
+    split
+    · trivial
+    · split
+      · -- canonical part, then the pre-confirmed blocks
+        rename_i hle
+        have hmin : min (startOf fromB tok) (base + 1) = startOf fromB tok := Nat.min_eq_left (by omega)
+        rw [hmin]
+        have hc := hcan (startOf fromB tok) (skipOf tok)
+        revert hc
+        generalize canonical cfg n f chunk limit (startOf fromB tok) base (skipOf tok) = cr
+        obtain ⟨res, c⟩ := cr
+        cases res with
+        | err e => intro _; trivial
+        | ok acc t =>
+          rintro ⟨Y, hY, hYs⟩
+          simp only [List.nil_append] at hY
+          have hsplit := naive_split f (n.chain.take (base + 1) ++ pre) (startOf fromB tok) base (base + pre.length)
+            (by omega) (by omega)
+          by_cases ht : (!t.isEmpty) = true
+          · simp only [ht, if_true]
+            show ResSound _ _ _ _ _ (PageRes.ok acc t)
+            refine ⟨Y, by simpa using hY, ?_⟩
+            rw [hsplit]; exact List.Sublist.trans hYs (List.sublist_append_left _ _)
+          · simp only [ht, Bool.false_eq_true, if_false]
+            obtain ⟨Z, hZ, hZs⟩ := scanPre_sound f (n.chain.take (base + 1) ++ pre) chunk
+              (if (startOf fromB tok == sentinel) = true then base + pre.length else startOf fromB tok) toB pre (base + 1) acc 0 hpidx
+            show ResSound _ _ _ _ _ (PageRes.ok _ _)
+            refine ⟨Y ++ Z, by rw [hZ, hY]; simp, ?_⟩
+            rw [hsplit, ← hpreNaive]
+            exact List.Sublist.append hYs hZs
+      · -- the pre-confirmed blocks only
+        rename_i hgt
+        have hmin : min (startOf fromB tok) (base + 1) = base + 1 := Nat.min_eq_right (by omega)
+        rw [hmin]
+        obtain ⟨Z, hZ, hZs⟩ := scanPre_sound f (n.chain.take (base + 1) ++ pre) chunk
+          (if (startOf fromB tok == sentinel) = true then base + pre.length else startOf fromB tok) toB pre (base + 1) [] (skipOf tok) hpidx
+        refine ⟨Z, hZ, ?_⟩
+        rw [← hpreNaive]; exact hZs
+
+/-- When the range ends at a canonical block, the pre-confirmed chain plays no role. -/
+theorem eventsPre_below_head (cfg : Cfg) (n : Node) (f : Filter) (fromB toB : Nat) (tok : Option Token) (chunk limit base : Nat)
+    (pre : List Block) (h1 : toB ≠ sentinel) (h2 : toB < n.chain.length) :
+    eventsPre cfg n f fromB toB tok chunk limit base pre = events cfg n f fromB toB tok chunk limit := by
+  rw [eventsPre_eq, events_eq]
+  split
+  · rfl
+  · cases hl : n.chain.length with
+    | zero => omega
+    | succ height =>
+      have hA : (toB != sentinel && decide (toB ≤ height)) = true := by
+        simp only [Bool.and_eq_true, bne_iff_ne, ne_eq, decide_eq_true_eq]; exact ⟨h1, by omega⟩
+      have hle : toB ≤ height := by omega
+      simp [h1, hle]
 
 end Juno.C09
